@@ -196,8 +196,14 @@ def run(chk, ctx):
     st.add_eq(R)
     st.enum_meet("self._max_n", "notin", ["None"])
     st.add_ineq(M - Lin.const(2))
-    st.add_ineq(-(Lin.sym("self._snapshots_in_ram") + Lin.sym("self._snapshots_on_disk")))
-    it = Interp(fn, entry=st, hooks={"n_advance": n_advance_hook})
+    from . import shared as _sh
+    pa_ = _sh.param_attrs(ctx.repo, "MultistageCheckpointSchedule")
+    RAM_S = pa_.get("snapshots_in_ram", "self._snapshots_in_ram")
+    DISK_S = pa_.get("snapshots_on_disk", "self._snapshots_on_disk")
+    st.add_ineq(-(Lin.sym(RAM_S) + Lin.sym(DISK_S)))
+    st.add_ineq(Lin.sym(RAM_S))
+    st.add_ineq(Lin.sym(DISK_S))
+    it = Interp(fn, entry=st, hooks={"n_advance": n_advance_hook}, klass="MultistageCheckpointSchedule")
     it.run()
     cons = f"{rel_m[:-3]}.{owner.name}._iterator#no-unit"
     has_guard = any(isinstance(s, ast.If) for s in guards.body)
@@ -214,8 +220,8 @@ def run(chk, ctx):
     st2.add_eq(R)
     st2.enum_meet("self._max_n", "notin", ["None"])
     st2.add_ineq(M - Lin.const(2))
-    st2.add_ineq(Lin.sym("self._snapshots_in_ram") + Lin.sym("self._snapshots_on_disk") - ONE)
-    it2 = Interp(fn, entry=st2, hooks={"n_advance": n_advance_hook})
+    st2.add_ineq(Lin.sym(RAM_S) + Lin.sym(DISK_S) - ONE)
+    it2 = Interp(fn, entry=st2, hooks={"n_advance": n_advance_hook}, klass="MultistageCheckpointSchedule")
     it2.run()
     chk.decide("C17.ACCEPT", cons + "/positive", True if it2.yields else False,
                "with at least one unit the first Forward is reachable", rel=rel_m, node=fn)
